@@ -18,7 +18,7 @@ from hv import Case
 
 SPEC = {
     "lean_modules": ["Honeycomb.Props.C16", "Honeycomb.Props.C16Cross", "Honeycomb.Props.C16Clip", "Honeycomb.Props.C16Insert", "Honeycomb.Props.C16Grid", "Honeycomb.Props.C16Edges",
-                     "Honeycomb.Props.C16EdgeInsert", "Honeycomb.Props.C16Chain", "Honeycomb.Props.C16ChainGrid", "Honeycomb.Props.C16Step5Total", "Honeycomb.Props.C16InsertTotal", "Honeycomb.Props.C16Step5Pipe"],
+                     "Honeycomb.Props.C16EdgeInsert", "Honeycomb.Props.C16Chain", "Honeycomb.Props.C16ChainGrid", "Honeycomb.Props.C16Step5Total", "Honeycomb.Props.C16InsertTotal", "Honeycomb.Props.C16Steps23Total", "Honeycomb.Props.C16Step5Pipe"],
     "required_theorems": ["C16_orientation_rejection_iff", "C16_orientation_accepts_iff_nodup", "C16_closed_loop_accepted",
                           "C16_repeated_origin_rejected", "C16_repeated_endpoint_rejected", "C16_grid_margins", "C16_grid_tight",
                           "C16_crossings_sound", "C16_crossings_on_grid_lines", "C16_crossings_complete", "C16_crossings_sorted", "C16_crossings_count", "C16_metadata_order", "C16_metadata_same_intersections", "C16_metadata_spec",
@@ -37,7 +37,8 @@ SPEC = {
                           "C16_poi_are_vertices_on_grid", "C17_poi_are_node_vertices_on_grid",
                           "C16_buildBaseEdge_ok_iff", "C16_stepFive_total_partial", "C16_pipeline_total_nopoi_partial",
                           "C16_pipeline_total_nopoi_on_grid_partial", "C16_insertVertices_total_partial", "C16_stepFive_total_indep_partial",
-                          "C16_pipeline_total_partial", "C16_pipeline_total_on_grid_partial",
+                          "C16_pipeline_total_partial", "C16_pipeline_total_on_grid_partial", "C16_steps23_total_partial", "C16_steps23_total_on_grid",
+                          "C17_capture_pipeline_total_on_grid_partial",
                           "C17_poi_are_node_vertices", "C16_deleteDarts_spec", "C16_deleteDarts_order_independent",
                           "C16_clip_spec", "C16_clip_WF", "C16_clip_order_independent", "C16_clipLeft_spec", "C16_clipRight_spec",
                           "C16_between_crossings_one_cell"],
@@ -191,8 +192,12 @@ SPEC = {
         "independent edges): insert_edges_in_map succeeds when every edge is Ready (+ a coordinate at both end points) IN THE MAP BEFORE THE "
         "STEP — the conditions are transported along the loop; inside the pipeline C16_pipeline_total_(nopoi_)partial / _on_grid_partial: "
         "`pipelineReady(All)` (steps 2-3 succeed, step 4 yields its edges, the edges Ready / valued / independent in the map after step 3: "
-        "decidable, checked before step 5, evaluated by `decide` in the examples) implies pipelineMap = some m. NOT proved: the same for the "
-        "loop of steps 2-3 (kernel totality available, transport along insert_intersections not done); Ready / Indep from the geometry; "
+        "decidable, checked before step 5, evaluated by `decide` in the examples) implies pipelineMap = some m. Steps 2-3 likewise "
+        "(Props/C16Steps23Total.lean): insertIntersections_total / C16_steps23_total_partial (every insert_vertices_on_edge of the loop answers "
+        "Ok: crossed edges 2-linked with successors, positions in ]0,1[, end points valued; transported along the loop) and, with no hypothesis "
+        "about the map, C16_steps23_total_on_grid: on the builder grid steps 2-3 SUCCEED for every geometry in general position inside the grid "
+        "and every HashMap order. NOT proved: that step 4 yields its edges (no missing key / diverging walk) and Ready / Indep of those edges "
+        "from the geometry (they are the evaluated part of pipelineReadyAll); boundary (1-linked) crossed edges; "
         "SideCoords (the grid map carries the side the kernel computed at every crossing dart: builder coordinates + C16_crossings_sound; "
         "clause `position`); HitDartsOK (about the grid map only: the darts the slots name are in use, have a successor and are 2-linked — "
         "interior grid edges); KeysAreHitEdges (about the HashMap only: it yields each key once and its keys are exactly the edges hit); the keys "
